@@ -36,10 +36,10 @@ Theorem C16_default_checker_sound : S_default_checker_sound.
 Proof. exact default_checker_sound. Qed.
 Print Assumptions C16_default_checker_sound.
 
-(** ---- the bound-refinement machine (directed variant) ---- *)
+(** ---- the bound-refinement machine (directed variant), rules of the repaired code ---- *)
 
 (** every breadth-first visit preserves lF <= ecc+ <= uF, lB <= ecc- <= uB, dL <= D (attained),
-    R <= rU (attained once below n-1), for ANY pivot and any visiting order *)
+    R <= rU (attained once below its initial value n), for ANY pivot and any visiting order *)
 Theorem C16_step_invariant : S_step_invariant.
 Proof. exact step_invariant. Qed.
 Print Assumptions C16_step_invariant.
@@ -53,41 +53,58 @@ Theorem C16_exit_exact : S_exit_exact.
 Proof. exact exit_exact. Qed.
 Print Assumptions C16_exit_exact.
 
-(** ... and the radial vertex attains the radius unless the radius is the initial bound n-1 *)
+(** ... and the radial vertex is a radial vertex attaining the radius (no side condition) *)
 Theorem C16_exit_radial_vertex : S_exit_radial_vertex.
 Proof. exact exit_radial_vertex. Qed.
 Print Assumptions C16_exit_radial_vertex.
 
-(** any legal sequence of visits reaching the exit condition gives an accepted output *)
+(** any legal sequence of visits reaching the exit condition gives an output accepted by the
+    complete checker *)
 Theorem C16_machine_exact : S_machine_exact.
 Proof. exact machine_exact. Qed.
 Print Assumptions C16_machine_exact.
 
-(** defect 1: the radial vertex is not set when the radius equals the initial bound *)
+(** defect 1, PRE-REPAIR rules ([replay_prefix]): the radial vertex is not set when the radius
+    equals the initial bound *)
 Theorem C16_radial_vertex_refuted : S_radial_vertex_refuted.
 Proof. exact radial_vertex_refuted. Qed.
 Print Assumptions C16_radial_vertex_refuted.
 
-(** defect 2: run_symm can report too large a radius *)
+(** defect 2, PRE-REPAIR rules ([replay_prefix]): run_symm can report too large a radius *)
 Theorem C16_symm_radius_refuted : S_symm_radius_refuted.
 Proof. exact symm_radius_refuted. Qed.
 Print Assumptions C16_symm_radius_refuted.
 
-(** replacing the upper bounds by better upper bounds (what all_cc_upper_bound must do)
+(** the two witnesses under the repaired rules: accepted by the complete checker *)
+Theorem C16_witnesses_repaired : S_witnesses_repaired.
+Proof. exact witnesses_repaired. Qed.
+Print Assumptions C16_witnesses_repaired.
+
+(** DIRECTED branch of all_cc_upper_bound: replacing the upper bounds by better upper bounds
     preserves the invariant; that the SCC-DAG values ARE upper bounds is not proved *)
 Theorem C16_allcc_step_invariant_partial : S_tighten_step_invariant.
 Proof. exact tighten_step_invariant. Qed.
 Print Assumptions C16_allcc_step_invariant_partial.
 
-(** ---- the symmetric variant (run_symm) ---- *)
+(** ---- the symmetric variant (run_symm), rules of the repaired code ---- *)
 
-(** distances of a symmetric graph are symmetric *)
+(** distances of a symmetric graph are symmetric; so are the eccentricities *)
 Theorem C16_symm_dist : S_symm_dist.
 Proof. exact symm_dist. Qed.
 Print Assumptions C16_symm_dist.
 
-(** every visit of run_symm preserves lF <= ecc <= uF, dL <= D (attained), R <= rU (attained
-    once below n/2): everything except the clause broken by defect 2 *)
+Theorem C16_symm_ecc : S_symm_ecc.
+Proof. exact symm_ecc. Qed.
+Print Assumptions C16_symm_ecc.
+
+(** d(pivot, v) + ecc(pivot) is an upper bound of ecc(v) (the SCC step of run_symm) *)
+Theorem C16_symm_pivot_bound : S_symm_pivot_bound.
+Proof. exact symm_pivot_bound. Qed.
+Print Assumptions C16_symm_pivot_bound.
+
+(** every operation of run_symm -- forward visit, backward visit, SCC step -- preserves the
+    FULL invariant (lF <= ecc <= uF, dL <= D attained, R <= rU attained once below n/2 + 1, a
+    completed radial vertex is accounted for in rU), for any pivots and any orders *)
 Theorem C16_symm_step_invariant : S_symm_step_invariant.
 Proof. exact symm_step_invariant. Qed.
 Print Assumptions C16_symm_step_invariant.
@@ -96,20 +113,59 @@ Theorem C16_symm_run_invariant : S_symm_run_invariant.
 Proof. exact symm_run_invariant. Qed.
 Print Assumptions C16_symm_run_invariant.
 
-(** at the exit of run_symm the eccentricities and the diameter are exact and the radius is
-    never under-estimated (it can be over-estimated: C16_symm_radius_refuted) *)
-Theorem C16_symm_exit_exact_partial : S_symm_exit_exact.
+(** at the exit of run_symm everything reported is exact, radius and radial vertex included
+    (hypothesis: radius <= n/2, see EssSymmStatements.v) *)
+Theorem C16_symm_exit_exact : S_symm_exit_exact.
 Proof. exact symm_exit_exact. Qed.
-Print Assumptions C16_symm_exit_exact_partial.
+Print Assumptions C16_symm_exit_exact.
+
+Theorem C16_symm_machine_exact : S_symm_machine_exact.
+Proof. exact symm_machine_exact. Qed.
+Print Assumptions C16_symm_machine_exact.
+
+(** the pivots chosen by the model of find_best_pivot are legal for the SCC step *)
+Theorem C16_best_pivots_legal : S_best_pivots_legal.
+Proof. exact best_pivots_legal. Qed.
+Print Assumptions C16_best_pivots_legal.
 
 (** non-vacuity: the documentation's example graph, a legal run reaching the exit of level
     All, accepted by the checker *)
 Example C16_nonvacuous :
   let g := [[1]; [2]; [3; 4]; [0]; []] in
   let radial := radial_of (dist_matrix g) 0 in
-  let ops := [OFwd 2; OBwd 4 [4; 2; 1; 0; 3]; OFwd 3; OBwd 0 [0; 3; 2; 1]; OFwd 0; OFwd 1; OFwd 4;
+  let ops := [OFwd 2 []; OBwd 4 [4; 2; 1; 0; 3]; OFwd 3 []; OBwd 0 [0; 3; 2; 1]; OFwd 0 []; OFwd 1 []; OFwd 4 [];
               OBwd 1 [1; 0; 3; 2]; OBwd 2 [2; 1; 0; 3]; OBwd 3 [3; 2; 1; 0]] in
   wf_graph g = true /\ fst (replay false g radial ops LAll) = 0 /\
   check_ess g radial (snd (replay false g radial ops LAll)) LAll = true /\
   o_diam (snd (replay false g radial ops LAll)) = 4 /\ o_rad (snd (replay false g radial ops LAll)) = Some 3.
 Proof. cbv zeta. repeat split; vm_compute; reflexivity. Qed.
+
+(** non-vacuity, symmetric variant: the path 0-1-2-3-4 plus an isolated node; a visit, the SCC
+    step with the pivots of the model of find_best_pivot, then visits until the exit of
+    level All; radius 2 <= 6/2 attained at node 2 *)
+Example C16_symm_nonvacuous :
+  let g := [[1]; [0; 2]; [1; 3]; [2; 4]; [3]; []] in
+  let dm := dist_matrix g in
+  let radial := radial_of dm 0 in
+  let all := [0; 1; 2; 3; 4; 5] in
+  let x1 := run_ops true dm radial [OFwd 0 all] (init_st 6 true) in
+  let ops := [OFwd 0 all; OAll (best_pivots true true dm 6 (tot_sym dm 6 [0]) x1) all; OBwd 4 all; OFwd 2 all; OFwd 3 all] in
+  wf_graph g = true /\ symmetric_graph g /\ Forall (legal_op_sym g) ops /\
+  (forall r, radius_from (eccs_f dm) radial = Some r -> r <= length g / 2) /\
+  fst (replay true g radial ops LAll) = 0 /\
+  check_ess g radial (snd (replay true g radial ops LAll)) LAll = true /\
+  o_rad (snd (replay true g radial ops LAll)) = Some 2 /\ o_rv (snd (replay true g radial ops LAll)) = 2.
+Proof.
+  cbv zeta. split; [reflexivity|]. split.
+  { intros u v H. do 6 (destruct u as [|u]; [cbn in H; cbn; intuition (subst; cbn; auto)|]).
+    destruct u; destruct H. }
+  split.
+  { repeat apply Forall_cons; try apply Forall_nil.
+    all: try (split; [cbn; lia|]; intros v Hv _; cbn in Hv;
+              do 6 (destruct v as [|v]; [cbn; tauto|]); lia).
+    split.
+    - intros v Hv. cbn in Hv. do 6 (destruct v as [|v]; [vm_compute; split; [lia | discriminate]|]). lia.
+    - intros v. cbn. split; [intuition lia | intros Hv; do 6 (destruct v as [|v]; [tauto|]); lia]. }
+  split; [intros r Hr; vm_compute in Hr; injection Hr as <-; cbn; lia|].
+  repeat split; vm_compute; reflexivity.
+Qed.
